@@ -1,7 +1,7 @@
 // Command instrument copies the non-test Go sources of the rjson repository
 // into a scratch directory and inserts a call to verifYield(site) at every
-// function entry, at the top of every loop body and at every Ragel state label
-// (stN:, reached once per consumed byte). The copy is what C18's cooperative
+// function entry, at the top of every loop body, at every Ragel state label
+// (stN:, reached once per consumed byte) and in front of every other statement. The copy is what C18's cooperative
 // scheduler runs: each yield is a point at which another task may be made to
 // run. Nothing under /repo is touched.
 package main
@@ -21,28 +21,241 @@ import (
 
 var stateLabel = regexp.MustCompile(`^st[0-9]+$`)
 
-type site struct{ file, kind, name string }
+type site struct{ file, kind, name, shared string }
 
 var sites []site
 
+// curShared is "shared" while a function that mentions a mutable package-level variable is being
+// instrumented: its yield sites are the ones a schedule aims at when it looks for broken atomicity.
+var curShared string
+
 func yieldCall(file, kind, name string) ast.Stmt {
 	id := len(sites)
-	sites = append(sites, site{file, kind, name})
+	sites = append(sites, site{file, kind, name, curShared})
 	return &ast.ExprStmt{X: &ast.CallExpr{Fun: ast.NewIdent("verifYield"), Args: []ast.Expr{&ast.BasicLit{Kind: token.INT, Value: fmt.Sprint(id)}}}}
 }
 
-func instrumentFile(path, rel string) ([]byte, error) {
+// instrumentStatements inserts a yield in front of every statement of every block, case clause and
+// select clause of fd (kind "stmt"), so that another task can be made to run between any two
+// statements of the library - between a check and the use that relies on it, between two loads,
+// between a callback's return and the state update that follows. Not instrumented: goto / break /
+// continue / fallthrough (no effect on memory), the first statement of function and loop bodies
+// (they get their own yield), statements behind a Ragel state label (ditto), and labelled
+// declarations (wrapping them in a block would change their scope).
+func instrumentStatements(fd *ast.FuncDecl, rel string) {
+	fname := fd.Name.Name
+	skipFirst := map[*ast.BlockStmt]bool{fd.Body: true}
+	clauseBody := map[*ast.BlockStmt]bool{} // bodies of switch / select: their "statements" are the clauses
+	var lists []*[]ast.Stmt
+	var owners []*ast.BlockStmt
+	ast.Inspect(fd.Body, func(n ast.Node) bool {
+		switch s := n.(type) {
+		case *ast.ForStmt:
+			skipFirst[s.Body] = true
+		case *ast.RangeStmt:
+			skipFirst[s.Body] = true
+		case *ast.SwitchStmt:
+			clauseBody[s.Body] = true
+		case *ast.TypeSwitchStmt:
+			clauseBody[s.Body] = true
+		case *ast.SelectStmt:
+			clauseBody[s.Body] = true
+		case *ast.BlockStmt:
+			if !clauseBody[s] {
+				lists = append(lists, &s.List)
+				owners = append(owners, s)
+			}
+		case *ast.CaseClause:
+			lists = append(lists, &s.Body)
+			owners = append(owners, nil)
+		case *ast.CommClause:
+			lists = append(lists, &s.Body)
+			owners = append(owners, nil)
+		}
+		return true
+	})
+	for li, lp := range lists {
+		var out []ast.Stmt
+		for i, st := range *lp {
+			switch t := st.(type) {
+			case *ast.BranchStmt, *ast.EmptyStmt:
+				out = append(out, st)
+				continue
+			case *ast.LabeledStmt:
+				if !stateLabel.MatchString(t.Label.Name) {
+					switch inner := t.Stmt.(type) {
+					case *ast.BlockStmt, *ast.DeclStmt, *ast.BranchStmt, *ast.EmptyStmt, *ast.LabeledStmt:
+					case *ast.AssignStmt:
+						if inner.Tok != token.DEFINE {
+							t.Stmt = &ast.BlockStmt{List: []ast.Stmt{yieldCall(rel, "stmt", fname+":"+t.Label.Name), t.Stmt}}
+						}
+					default:
+						t.Stmt = &ast.BlockStmt{List: []ast.Stmt{yieldCall(rel, "stmt", fname+":"+t.Label.Name), t.Stmt}}
+					}
+				}
+				out = append(out, st)
+				continue
+			}
+			if i == 0 && owners[li] != nil && skipFirst[owners[li]] {
+				out = append(out, st)
+				continue
+			}
+			out = append(out, yieldCall(rel, "stmt", fname), st)
+		}
+		*lp = out
+	}
+}
+
+// mutableGlobals finds, without type information, the package-level variables of one package that
+// some function may modify: a variable that appears on the left of an assignment or ++/--, under a
+// unary & (atomic operations, pointers handed around), as the receiver of a method call (pools,
+// mutexes, atomic.Value), as the base of an indexed / field assignment, sliced, or handed whole to a
+// function (a slice, map or pointer the callee may write through). Read-only tables are not
+// flagged. Local variables that shadow a global give false positives, which only add sites to aim at.
+// The verif seam's own files are left out: they are the simulator's, not the library's.
+func mutableGlobals(dir string, names []string) map[string]bool {
+	fset := token.NewFileSet()
+	globals := map[string]bool{}
+	var files []*ast.File
+	for _, name := range names {
+		if strings.Contains(name, "verif") {
+			continue
+		}
+		f, err := parser.ParseFile(fset, filepath.Join(dir, name), nil, 0)
+		if err != nil {
+			continue
+		}
+		files = append(files, f)
+		for _, d := range f.Decls {
+			if gd, ok := d.(*ast.GenDecl); ok && gd.Tok == token.VAR {
+				for _, sp := range gd.Specs {
+					for _, id := range sp.(*ast.ValueSpec).Names {
+						if id.Name != "_" {
+							globals[id.Name] = true
+						}
+					}
+				}
+			}
+		}
+	}
+	base := func(e ast.Expr) string {
+		for {
+			switch t := e.(type) {
+			case *ast.Ident:
+				return t.Name
+			case *ast.IndexExpr:
+				e = t.X
+			case *ast.SelectorExpr:
+				e = t.X
+			case *ast.StarExpr:
+				e = t.X
+			case *ast.ParenExpr:
+				e = t.X
+			case *ast.SliceExpr:
+				e = t.X
+			default:
+				return ""
+			}
+		}
+	}
+	mut := map[string]bool{}
+	for _, f := range files {
+		for _, d := range f.Decls {
+			fd, ok := d.(*ast.FuncDecl)
+			if !ok || fd.Body == nil {
+				continue
+			}
+			ast.Inspect(fd.Body, func(n ast.Node) bool {
+				switch t := n.(type) {
+				case *ast.AssignStmt:
+					if t.Tok != token.DEFINE {
+						for _, l := range t.Lhs {
+							if b := base(l); globals[b] {
+								mut[b] = true
+							}
+						}
+					}
+				case *ast.IncDecStmt:
+					if b := base(t.X); globals[b] {
+						mut[b] = true
+					}
+				case *ast.UnaryExpr:
+					if t.Op == token.AND {
+						if b := base(t.X); globals[b] {
+							mut[b] = true
+						}
+					}
+				case *ast.CallExpr:
+					if sel, ok := t.Fun.(*ast.SelectorExpr); ok {
+						if b := base(sel.X); globals[b] {
+							mut[b] = true
+						}
+					}
+					// handed to a function as a whole (a slice, map or pointer the callee may write through)
+					if fn, ok := t.Fun.(*ast.Ident); ok && (fn.Name == "len" || fn.Name == "cap") {
+						break
+					}
+					for _, arg := range t.Args {
+						if id, ok := arg.(*ast.Ident); ok && globals[id.Name] {
+							mut[id.Name] = true
+						}
+					}
+				case *ast.SliceExpr:
+					if b := base(t.X); globals[b] {
+						mut[b] = true
+					}
+				}
+				return true
+			})
+		}
+	}
+	return mut
+}
+
+func mentions(fd *ast.FuncDecl, names map[string]bool) bool {
+	found := false
+	ast.Inspect(fd.Body, func(n ast.Node) bool {
+		if id, ok := n.(*ast.Ident); ok && names[id.Name] {
+			found = true
+		}
+		return !found
+	})
+	return found
+}
+
+func instrumentFile(path, rel string, mut map[string]bool) ([]byte, error) {
 	fset := token.NewFileSet()
 	f, err := parser.ParseFile(fset, path, nil, parser.ParseComments)
 	if err != nil {
 		return nil, err
 	}
+	// comments inside function bodies are dropped: statements inserted without positions next to
+	// them would otherwise be printed into the comment's line. Comments in front of the package
+	// clause (build constraints) and doc comments of declarations stay.
+	var keep []*ast.CommentGroup
+	for _, cg := range f.Comments {
+		inBody := false
+		for _, decl := range f.Decls {
+			if fd, ok := decl.(*ast.FuncDecl); ok && fd.Body != nil && cg.Pos() > fd.Body.Lbrace && cg.End() < fd.Body.Rbrace {
+				inBody = true
+			}
+		}
+		if !inBody {
+			keep = append(keep, cg)
+		}
+	}
+	f.Comments = keep
 	for _, decl := range f.Decls {
 		fd, ok := decl.(*ast.FuncDecl)
 		if !ok || fd.Body == nil {
 			continue
 		}
 		fname := fd.Name.Name
+		curShared = ""
+		if !strings.Contains(rel, "verif") && mentions(fd, mut) {
+			curShared = "shared"
+		}
+		instrumentStatements(fd, rel)
 		ast.Inspect(fd.Body, func(n ast.Node) bool {
 			switch s := n.(type) {
 			case *ast.ForStmt:
@@ -81,15 +294,23 @@ func main() {
 			os.Exit(2)
 		}
 		os.MkdirAll(filepath.Join(dst, pkg), 0o755)
+		var goFiles []string
 		for _, e := range entries {
 			name := e.Name()
 			if e.IsDir() || !strings.HasSuffix(name, ".go") || strings.HasSuffix(name, "_test.go") {
 				continue
 			}
+			goFiles = append(goFiles, name)
+		}
+		mut := mutableGlobals(filepath.Join(src, pkg), goFiles)
+		for m := range mut {
+			fmt.Printf("package-level variable that functions may modify: %s.%s\n", pkg, m)
+		}
+		for _, name := range goFiles {
 			rel := filepath.Join(pkg, name)
-			out, err := instrumentFile(filepath.Join(src, rel), rel)
+			out, err := instrumentFile(filepath.Join(src, rel), rel, mut)
 			if err != nil {
-				fmt.Fprintln(os.Stderr, "instrument:", err)
+				fmt.Fprintln(os.Stderr, "instrument:", rel, err)
 				os.Exit(2)
 			}
 			if err := os.WriteFile(filepath.Join(dst, rel), out, 0o644); err != nil {
@@ -122,9 +343,9 @@ func verifYield(site int) {
 	tbl.WriteString("package rjson\n\nimport \"github.com/willabides/rjson/internal/fp\"\n\nvar verifYieldHook func(int)\n\n")
 	tbl.WriteString("// SetVerifYield installs the yield hook of the instrumented copy (both packages).\nfunc SetVerifYield(f func(int)) {\n\tverifYieldHook = f\n\tfp.SetVerifYield(f)\n}\n\n")
 	tbl.WriteString("func verifYield(site int) {\n\tif h := verifYieldHook; h != nil {\n\t\th(site)\n\t}\n}\n\n")
-	tbl.WriteString("// VerifSites describes every yield site: file, kind (func/loop/state), name.\nvar VerifSites = [][3]string{\n")
+	tbl.WriteString("// VerifSites describes every yield site: file, kind (func/loop/state/stmt), name, and the word shared when the\n// enclosing function mentions a package-level variable that some function may modify.\nvar VerifSites = [][4]string{\n")
 	for _, s := range sites {
-		fmt.Fprintf(&tbl, "\t{%q, %q, %q},\n", s.file, s.kind, s.name)
+		fmt.Fprintf(&tbl, "\t{%q, %q, %q, %q},\n", s.file, s.kind, s.name, s.shared)
 	}
 	tbl.WriteString("}\n")
 	os.WriteFile(filepath.Join(dst, "internal/fp", "verif_yield.go"), []byte(fpYield), 0o644)
